@@ -35,10 +35,17 @@ N_Two    == {"Lin", "Log"}
 FL_All   == { <<FALSE, FALSE>>, <<FALSE, TRUE>>, <<TRUE, FALSE>>, <<TRUE, TRUE>> }
 FL_Plain == { <<FALSE, FALSE>> }
 FL_Two   == { <<FALSE, FALSE>>, <<TRUE, TRUE>> }
-O_Default == { <<"sympy", TRUE, "asc", "comp">> }
-O_All    == {"sympy", "numpy", "math"} \X BOOLEAN \X {"asc", "rev"} \X {"comp", "formula"}
-\* every value of every option at least once, and the plausible pairs
-O_Hist   == { <<"sympy", TRUE, "asc", "comp">>, <<"numpy", TRUE, "rev", "formula">> }
-O_Some   == { <<"sympy", TRUE, "asc", "comp">>, <<"numpy", TRUE, "rev", "formula">>, <<"math", TRUE, "asc", "formula">>,
-              <<"sympy", FALSE, "rev", "comp">>, <<"numpy", FALSE, "asc", "comp">>, <<"sympy", TRUE, "rev", "formula">> }
+O_Default == { <<"sympy", TRUE, "asc", "comp", "net">> }
+O_Four   == {"sympy", "numpy", "math"} \X BOOLEAN \X {"asc", "rev"} \X {"comp", "formula"}
+\* every bundle of the first four options with net coefficients, every written form with the default
+\* bundle, and a few mixed ones
+O_All    == { <<o[1], o[2], o[3], o[4], "net">> : o \in O_Four } \cup
+            { <<"sympy", TRUE, "asc", "comp", w>> : w \in {"self", "other", "inact"} } \cup
+            { <<"numpy", TRUE, "rev", "formula", "self">>, <<"math", FALSE, "asc", "comp", "other">>,
+              <<"sympy", FALSE, "rev", "formula", "inact">> }
+O_Hist   == { <<"sympy", TRUE, "asc", "comp", "net">>, <<"numpy", TRUE, "rev", "formula", "self">> }
+O_Some   == { <<"sympy", TRUE, "asc", "comp", "net">>, <<"numpy", TRUE, "rev", "formula", "other">>,
+              <<"math", TRUE, "asc", "formula", "net">>, <<"sympy", FALSE, "rev", "comp", "self">>,
+              <<"numpy", FALSE, "asc", "comp", "net">>, <<"sympy", TRUE, "rev", "formula", "inact">> }
+O_Written == { <<"sympy", TRUE, "asc", "comp", w>> : w \in {"net", "self", "other", "inact"} }
 =============================================================================
